@@ -109,7 +109,10 @@ def check_plan(plan):
         all_refs = list(refs)
         bad = [r for r in refs if not (isinstance(r, int) and not isinstance(r, bool) and 0 <= r < i)]
         if bad:
-            out.append(({'cond': 'forward-or-self-reference', 'step': type(st).__name__, 'in': 'step'}, {'index': i, 'refs': [repr(b) for b in bad]}))
+            b0 = bad[0]
+            target = type(steps[b0]).__name__ if (isinstance(b0, int) and not isinstance(b0, bool) and 0 <= b0 < n) else 'no-such-step'
+            out.append(({'cond': 'forward-or-self-reference', 'step': type(st).__name__, 'in': 'step', 'target': target},
+                        {'index': i, 'refs': [repr(b) for b in bad]}))
         # sub-steps: may reference earlier top-level steps (< i) or earlier sub-steps of this container
         sub_ids = []
         for j, sub in enumerate(subs):
@@ -117,7 +120,8 @@ def check_plan(plan):
             for r in srefs:
                 ok = (isinstance(r, int) and not isinstance(r, bool) and 0 <= r < i) or (r in sub_ids)
                 if not ok:
-                    out.append(({'cond': 'forward-or-self-reference', 'step': type(sub).__name__, 'in': type(st).__name__},
+                    target = type(steps[r]).__name__ if (isinstance(r, int) and not isinstance(r, bool) and 0 <= r < n) else 'no-such-step'
+                    out.append(({'cond': 'forward-or-self-reference', 'step': type(sub).__name__, 'in': type(st).__name__, 'target': target},
                                 {'index': i, 'sub': j, 'ref': repr(r), 'earlier_substeps': [repr(x) for x in sub_ids]}))
                 if isinstance(r, int) and not isinstance(r, bool):
                     all_refs.append(r)
